@@ -79,6 +79,27 @@ def trait_cases(M, L, vals):
     return res
 
 
+def preorder_groups(L):
+    res = []
+
+    def walk(x):
+        for g in x.groups:
+            res.append(g)
+            walk(g)
+    walk(L)
+    return res
+
+
+def trait_formula(M, L, counts, total_data):
+    """size of a message with the given TOTAL entry counts per group (pre-order) and total data payload, big-int arithmetic"""
+    groups = preorder_groups(L)
+    size = M.header.size + L.block_length
+    size += sum(g.dimension.size for g in L.groups) + sum(d.header_size for d in L.data)
+    for g, n in zip(groups, counts):
+        size += n * (g.block_length + sum(c.dimension.size for c in g.groups) + sum(d.header_size for d in g.data))
+    return size + total_data
+
+
 def cursor_checkable(L):
     return any(not m.is_const for m in L.fields) or L.groups or L.data
 
@@ -98,6 +119,31 @@ def run(t, budget=1.0):
     def body(data):
         entry, mi, L = pc.draw_target(data)
         M = entry.model
+        groups = preorder_groups(L)
+        if groups and data.draw(st.integers(0, 4)) == 0:
+            # trait formula with large counts (no image): every numInGroup value up to the type maximum
+            from vlib.schemagen import prim_range
+            counts = []
+            for g in groups:
+                top = prim_range(M.member(g.dimension, "numInGroup").prim)[1]
+                counts.append(data.draw(st.one_of(st.sampled_from(sorted({0, 1, top, top - 1, top // 2 + 1, min(top, 65535), min(top, 65536), min(top, 2 ** 31), min(top, 2 ** 32 - 1)})),
+                                                  st.integers(0, top))))
+            total = data.draw(st.sampled_from([0, 1, 2 ** 16, 2 ** 32 + 5])) if has_data_anywhere(L) else 0
+            expv = trait_formula(M, L, counts, total)
+            if expv < 2 ** 64:
+                args = counts + ([total] if has_data_anywhere(L) else [])
+                line = "tsize %d 0 %s" % (mi, " ".join(str(a) for a in args))
+                if max(counts + [0]) >= 2 ** 16:
+                    res.nontriv(common.text_hash(entry.dir, line))
+                res.cls("trait_big_counts")
+                for cfg in entry.status["configs"]:
+                    resp = pc.call(entry, cfg, line)
+                    res.count()
+                    if resp != "OK trait=%d" % expv:
+                        pc.fail("size-mismatch:trait-message-big-counts", entry,
+                                {"cmd": line, "config": cfg, "expected": "OK trait=%d" % expv, "actual": resp},
+                                "[%s] message %s trait size_bytes(%s): expected %d, got %s" % (cfg, L.name, args, expv, resp[:100]))
+            return
         vals = data.draw(values.level_values(L, max_entries=3, inflate=False))
         img, size = M.encode_message(L, vals, background=data.draw(st.sampled_from([0, 0xFF, 0x77])))
         exp = expected_sizes(M, L, vals, size)
